@@ -579,6 +579,16 @@ void Miser(std::function<double(std::vector<double>&, const double)> func, std::
 	const int MNPT = 15, MNBS = 60;
 	const double PFAC = 0.1, TINY = 1.0e-30, BIG = 1.0e30;
 	static int iran = 0;
+	// The sequence iran (used for the dithering and for the fallback choice of the bisection direction) restarts with every top-level call, such that the result of an integration does not depend on the integrations performed before it.
+	static int recursion_level = 0;
+	struct Level_Guard
+	{
+		Level_Guard() { recursion_level++; }
+		~Level_Guard() { recursion_level--; }
+	};
+	if(recursion_level == 0)
+		iran = 0;
+	Level_Guard level_guard;
 	int j, jb, n, ndim, npre, nptl, nptr;
 	double avel, varl, fracl, fval, rgl, rgm, rgr, s, sigl, siglb, sigr, sigrb;
 	double sum, sumb, summ, summ2;
